@@ -60,6 +60,11 @@ def _more_hand_made(P: Any) -> list[tuple[str, list[Any], list[list[Any]], list[
     sets.append(("switch-type-ops-as-plain-operations", [inf("GENERIC")], [[
         o(0, "hm_first", []), o(1, "ProcessSpecial", [1, 2, 3]), o(2, "hm_mid", []), o(3, "message_Menu", [V("MENU_X")]), o(4, "SwitchRandom", [5]), o(5, "hm_last", []),
         o(6, "End", [])]], [None]))
+    # a routine that starts with a Jump while its first op is the target of exactly one later branch (the entry is not "label 0")
+    sets.append(("entry-op-is-a-branch-target", [inf("GENERIC")], [[
+        o(0, "Jump", [2]), o(1, "Branch", [V("$A"), 1, 0]), o(2, "Branch", [V("$B"), 1, 1]), o(3, "End", [])]], [None]))
+    sets.append(("entry-op-is-a-branch-target-2", [inf("GENERIC")], [[
+        o(0, "Jump", [3]), o(1, "hm_never", []), o(2, "hm_body", []), o(3, "Branch", [V("$A"), 1, 5]), o(4, "End", []), o(5, "Branch", [V("$B"), 1, 0]), o(6, "Jump", [2])]], [None]))
     sets.append(("irreducible-loop-through-first-op", [inf("GENERIC")], [[
         o(0, "hm_top", []), o(1, "Branch", [V("$A"), 1, 4]), o(2, "hm_x", []), o(3, "Jump", [5]), o(4, "hm_y", []), o(5, "hm_z", []), o(6, "Branch", [V("$B"), 2, 4]),
         o(7, "Branch", [V("$C"), 3, 0]), o(8, "Jump", [2])]], [None]))
@@ -203,3 +208,45 @@ def ssbs_sourcemap_rule(chk: Check, ctx: Any, rule: str) -> None:
         except (Unsupported, AnalysisError) as e:
             chk.unknown(rule, key, anchor, f"routine set `{name}`: abstract interpretation left the modelled subset: {e}")
     chk.floor(rule, "routine sets whose SsbScript source map was compared", n, 10)
+
+
+def _op_level(P: Any, thorough: bool) -> list[tuple[str, list[Any], list[list[Any]], list[Any]]]:
+    """Every well-formed routine of up to 3 (thorough: 4) ops over {plain op, End, Jump -> t, Branch -> t}: all layouts of all small flow
+    graphs, whether or not a compiler would produce them.  Well-formed: the last op does not fall off the end, every target is an op of
+    the routine, no cycle consists of Jump ops only."""
+    import itertools
+    o, inf, pa = P.op, P.info, P.param
+    out = []
+    for n in range(1, (4 if thorough else 3) + 1):
+        choices: list[tuple[str, int | None]] = [("P", None), ("E", None)] + [("J", t) for t in range(n)] + [("B", t) for t in range(n)]
+        for prog in itertools.product(choices, repeat=n):
+            if prog[-1][0] not in "EJ":
+                continue
+            ok = True
+            for i, (k, t) in enumerate(prog):
+                if k == "J":
+                    seen = set()
+                    j = i
+                    while prog[j][0] == "J":
+                        if j in seen:
+                            ok = False
+                            break
+                        seen.add(j)
+                        j = prog[j][1]  # type: ignore[assignment]
+                    if not ok:
+                        break
+            if not ok:
+                continue
+            ops = []
+            for i, (k, t) in enumerate(prog):
+                if k == "E":
+                    ops.append(o(i, "End", []))
+                elif k == "J":
+                    ops.append(o(i, "Jump", [t]))
+                elif k == "B":
+                    ops.append(o(i, "Branch", [pa("SsbOpParamConstant", f"$V{i}"), 1, t]))
+                else:
+                    ops.append(o(i, f"op{i}", []))
+            shape = " ".join(k if t is None else f"{k}{t}" for k, t in prog)
+            out.append((f"oplevel-{n}", [inf("GENERIC")], [ops], [None]))
+    return out
